@@ -27,10 +27,6 @@ def sample_files():
     return sorted(f for f in glob.glob(os.path.join(root, "**", "*"), recursive=True) if os.path.isfile(f))
 
 
-def fmt_of_site(tb_site, exn):
-    return tb_site
-
-
 def real_outcome(data):
     """{"ok": class} | {"exn": class, "fmt": module that was parsing, "site": innermost amoco function}"""
     import time, signal
@@ -58,9 +54,11 @@ def frames(e):
             break
     site = "%s:%s" % (os.path.basename(fr[-1].filename), fr[-1].name) if fr else "?"
     # for a timeout the innermost frame is wherever the timer fired: name the loop instead, i.e. the deepest
-    # function of the format's own module on the stack
+    # stage of the constructor (its direct callee in the format's own module) that does not return
     own = [f for f in fr if os.path.basename(f.filename)[:-3] == fmt]
-    loop = "%s:%s" % (os.path.basename(own[-1].filename), own[-1].name) if own else site
+    body = [f for f in own if f.name not in ("__init__", "__parse")]
+    pick = body[0] if body else (own[-1] if own else None)      # the constructor's direct callee the time is spent in
+    loop = "%s:%s" % (os.path.basename(pick.filename), pick.name) if pick else site
     return {"fmt": fmt, "site": site, "loop": loop}
 
 
